@@ -174,3 +174,234 @@ def probe_c01(ctx, pf):
                               f"{cname}: {what}: interior face fluxes do not cancel (volume-weighted sum {tot:.6g}, scale {scale:.3g})",
                               lab(cname, fs, D=Da, u=ua, phi_with_ghosts=phi._value, what=what))
     return n
+
+
+# ------------------------------------------------------------------ C03 / C04 / C12
+SIDES = [("left", "right"), ("bottom", "top"), ("back", "front")]
+
+
+def metric_h(mesh, cname, ax, hi):
+    """distance factor h of the ghost-to-inner difference quotient on the faces normal to axis ax (array over the face)"""
+    d = len(mesh.dims)
+    cs = [mesh.cellsize._x, mesh.cellsize._y, mesh.cellsize._z][ax]
+    dx = cs[-1] if hi else cs[0]
+    shape = [int(n) for n in mesh.dims]
+    tshape = [shape[i] for i in range(d) if i != ax]
+    h = np.full(tshape if tshape else (1,), float(dx))
+    if cname in ("PolarGrid2D",) and ax == 1:
+        h = dx * mesh.cellcenters._x
+    if cname in ("CylindricalGrid3D", "SphericalGrid3D") and ax == 1:
+        h = dx * mesh.cellcenters._x[:, None] * np.ones(tshape)
+    if cname == "SphericalGrid3D" and ax == 2:
+        h = dx * mesh.cellcenters._x[:, None] * np.sin(mesh.cellcenters._y)[None, :]
+    return h
+
+
+def robin_residual(pf, mesh, cname, var):
+    """max relative residual of a*dphi/dn + b*phi = c over all non-periodic boundary faces, and of the wrap on periodic axes"""
+    d = len(mesh.dims)
+    v = np.asarray(var._value, dtype=float)
+    worst = 0.0; where = None
+    for ax in range(d):
+        lo, hi = getattr(var.BCs, SIDES[ax][0]), getattr(var.BCs, SIDES[ax][1])
+        periodic = lo.periodic or hi.periodic
+        inner = tuple(slice(1, -1) if i != ax else None for i in range(d))
+        def take(k):
+            idx = tuple(slice(1, -1) if i != ax else k for i in range(d))
+            return v[idx]
+        N = int(mesh.dims[ax])
+        if periodic:
+            e = max(rel(take(0), take(N)), rel(take(N + 1), take(1)))
+            if e > worst:
+                worst, where = e, f"periodic wrap axis {ax}"
+            continue
+        for side, face, g, i_, sgn in ((0, lo, 0, 1, 1.0), (1, hi, N + 1, N, 1.0)):
+            a = np.asarray(face.a, dtype=float).reshape(take(g).shape) if take(g).shape != () else float(np.asarray(face.a).ravel()[0])
+            b = np.asarray(face.b, dtype=float).reshape(take(g).shape) if take(g).shape != () else float(np.asarray(face.b).ravel()[0])
+            c = np.asarray(face.c, dtype=float).reshape(take(g).shape) if take(g).shape != () else float(np.asarray(face.c).ravel()[0])
+            h = metric_h(mesh, cname, ax, side == 1)
+            h = np.asarray(h).reshape(take(g).shape) if take(g).shape != () else float(np.asarray(h).ravel()[0])
+            if side == 1:
+                dq = (take(g) - take(i_)) / h
+            else:
+                dq = (take(i_) - take(g)) / h
+            lhs = a * dq + b * 0.5 * (take(g) + take(i_))
+            sc = 1.0 + np.max(np.abs(a * dq)) + np.max(np.abs(b * take(g))) + np.max(np.abs(c))
+            e = float(np.max(np.abs(lhs - c)) / sc)
+            if e > worst:
+                worst, where = e, f"{SIDES[ax][side]}"
+    return worst, where
+
+
+def probe_c03(ctx, pf):
+    from suites.bcsuite import set_random_bcs, bc_label
+    from scipy.sparse.linalg import spsolve
+    n = 0
+    for rng, cname, fs, mesh in cases(ctx, pf, "c03", reps_q=5, reps_t=30):
+        d = len(mesh.dims)
+        BC, desc, per = set_random_bcs(rng, mesh, cname)
+        inner = gen.cell_array(rng, mesh)[interior_slices(d)]
+        L = lab(cname, fs, bc=bc_label(BC, d), kinds=desc, phi_interior=inner)
+        try:
+            with np.errstate(all="ignore"):
+                phi = pf.CellVariable(mesh, inner, BC)
+                stages = [("construction", phi)]
+                phi2 = phi.copy(); phi2.value = phi2.value * 2.0 + 1.0; phi2.apply_BCs()
+                stages.append(("apply_BCs", phi2))
+                D = pf.FaceVariable(mesh, 1.0)
+                spy = {}
+                def solver(M, R):
+                    spy["x"] = spsolve(M, R); return spy["x"]
+                phi3 = phi.copy()
+                pf.solvePDE(phi3, [pf.transientTerm(phi3, 0.5, 1.0), -pf.diffusionTerm(D)], externalsolver=solver)
+                stages.append(("solvePDE", phi3))
+                rhs = pf.divergenceTerm(fmul(pf, mesh, D, pf.gradientTerm(phi)))
+                phi4 = pf.solveExplicitPDE(phi, 0.01, rhs)
+                stages.append(("solveExplicitPDE", phi4))
+        except Exception as ex:
+            ctx.violation(f"c03:{cname}:raise", f"{cname}: {type(ex).__name__} while applying boundary conditions: {ex}", L)
+            continue
+        for what, var in stages:
+            n += 1
+            if not np.all(np.isfinite(var._value)):
+                continue
+            e, where = robin_residual(pf, mesh, cname, var)
+            if e > 1e-8:
+                ctx.violation(f"c03:{cname}:{what}", f"{cname}: after {what} the stored boundary values violate the configured condition on {where} (residual {e:.3g})",
+                              dict(L, stage=what, where=where))
+        # solver ghosts vs reported ghosts (mutual consistency)
+        raw = np.asarray(spy["x"]).reshape(phi3._value.shape)
+        rep = np.asarray(phi3._value)
+        for ax in range(d):
+            N = int(mesh.dims[ax])
+            for g in (0, N + 1):
+                idx = tuple(slice(1, -1) if i != ax else g for i in range(d))
+                n += 1
+                e = rel(raw[idx], rep[idx])
+                if e > 1e-8:
+                    cs = [mesh.cellsize._x, mesh.cellsize._y, mesh.cellsize._z][ax]
+                    if per[ax] and abs(cs[0] - cs[-1]) > 1e-14:
+                        ctx.violation("c03:periodic_nonuniform",
+                                      "on a periodic axis whose two end cells differ in size the solver's periodic rows (gradient matching) and the reported wrap-copy ghost values differ",
+                                      dict(L, axis=ax, solver_ghost=np.asarray(raw[idx]).tolist(), reported_ghost=np.asarray(rep[idx]).tolist()))
+                    else:
+                        ctx.violation(f"c03:{cname}:solver-vs-reported", f"{cname}: ghost values used by the solver and reported after solvePDE differ on axis {ax} (rel {e:.3g})",
+                                      dict(L, axis=ax))
+    return n
+
+
+def probe_c04(ctx, pf):
+    from suites.bcsuite import set_random_bcs, bc_label
+    from scipy.sparse.linalg import spsolve
+    n = 0
+    for rng, cname, fs, mesh in cases(ctx, pf, "c04", reps_q=4, reps_t=25):
+        d = len(mesh.dims)
+        BC, desc, per = set_random_bcs(rng, mesh, cname)
+        inner = gen.cell_array(rng, mesh)[interior_slices(d)]
+        L = lab(cname, fs, bc=bc_label(BC, d), kinds=desc, phi_interior=inner)
+        with np.errstate(all="ignore"):
+            phi = pf.CellVariable(mesh, inner, BC)
+            D = pf.FaceVariable(mesh, *gen.face_arrays(rng, mesh, lo=0.0, hi=2.0))
+            u = pf.FaceVariable(mesh, *gen.face_arrays(rng, mesh, lo=-1.0, hi=1.0))
+            gam = pf.CellVariable(mesh, gen.cell_array(rng, mesh)[interior_slices(d)])
+            Mt, Rt = pf.transientTerm(phi, 0.25, 1.0)
+            Md = pf.diffusionTerm(D); Mu = pf.convectionUpwindTerm(u); Rg = pf.constantSourceTerm(gam)
+            terms = [(Mt, Rt), -2.0 * Md, Mu, 0.5 * Rg]
+            rng.shuffle(terms)
+            spy = {}
+            def solver(M, R):
+                spy["M"], spy["R"] = M.copy(), R.copy(); return spsolve(M, R)
+            Mbc, Rbc = pf.boundaryConditionsTerm(BC)
+            ret = pf.solvePDE(phi, terms, externalsolver=solver)
+            Mh = Mbc + Mt - 2.0 * Md + Mu; Rh = Rbc + Rt + 0.5 * Rg
+        n += 3
+        if ret is not phi:
+            ctx.violation(f"c04:{cname}:identity", f"{cname}: solvePDE does not return the variable it was given", L)
+        if abs(spy["M"] - Mh).max() > 1e-9 * (1 + abs(Mh).max()) or rel(spy["R"], Rh) > 1e-9:
+            ctx.violation(f"c04:{cname}:external-system", f"{cname}: the external solver received a different system than sum(terms)+BC terms", L)
+        # terms touch interior rows only / BC term touches boundary rows only
+        shape = full_shape(mesh)
+        G = np.arange(int(np.prod(shape))).reshape(shape)
+        inter = set(G[interior_slices(d)].ravel().tolist())
+        for nm, Mx in (("transient", Mt), ("diffusion", Md), ("upwind", Mu)):
+            rows = set(np.unique(Mx.tocoo().row[Mx.tocoo().data != 0]).tolist())
+            if not rows <= inter:
+                ctx.violation(f"c04:{cname}:{nm}-rows", f"{cname}: {nm} term has entries in boundary rows", L)
+        rows = set(np.unique(Mbc.tocoo().row[Mbc.tocoo().data != 0]).tolist())
+        if rows & inter:
+            ctx.violation(f"c04:{cname}:bc-rows", f"{cname}: boundary term has entries in interior rows", L)
+        with np.errstate(all="ignore"):
+            ref = pf.solveMatrixPDE(mesh, Mh, Rh)
+        if np.all(np.isfinite(ref._value)) and np.max(np.abs(ref._value)) < 1e6:
+            n += 1
+            if rel(ref.value, ret.value) > 1e-8:
+                ctx.violation(f"c04:{cname}:solveMatrixPDE", f"{cname}: solvePDE and solveMatrixPDE on the hand-assembled system differ", L)
+    return n
+
+
+def probe_c12(ctx, pf):
+    from suites.bcsuite import set_random_bcs, bc_label
+    n = 0
+    for rng, cname, fs, mesh in cases(ctx, pf, "c12", reps_q=3, reps_t=20):
+        d = len(mesh.dims)
+        BC, desc, per = set_random_bcs(rng, mesh, cname, allow_periodic=False, kinds=["dirichlet", "robin", "dirichlet"])
+        inner = gen.cell_array(rng, mesh)[interior_slices(d)]
+        L = lab(cname, fs, bc=bc_label(BC, d), kinds=desc, phi_interior=inner)
+        with np.errstate(all="ignore"):
+            D = pf.FaceVariable(mesh, *[np.abs(a) + 0.25 for a in gen.face_arrays(rng, mesh, lo=0.0, hi=2.0)])
+            u = pf.FaceVariable(mesh, *gen.face_arrays(rng, mesh, lo=-1.0, hi=1.0))
+            beta = pf.CellVariable(mesh, np.abs(gen.cell_array(rng, mesh))[interior_slices(d)] + 0.5)
+            gam = pf.CellVariable(mesh, gen.cell_array(rng, mesh)[interior_slices(d)])
+            spatial = [-pf.diffusionTerm(D), pf.convectionUpwindTerm(u), pf.linearSourceTerm(beta), pf.constantSourceTerm(gam)]
+            st = pf.CellVariable(mesh, inner, BC)
+            pf.solvePDE(st, spatial)
+            steady = np.array(st._value)
+            if not np.all(np.isfinite(steady)) or np.max(np.abs(steady)) > 1e6:
+                continue
+            decades = range(-6, 7, 3) if ctx.tier == "quick" else range(-6, 7)
+            for e in decades:
+                dt = 10.0 ** e
+                alpha = rng.choice([1.0, 2.5, pf.CellVariable(mesh, np.abs(gen.cell_array(rng, mesh))[interior_slices(d)] + 0.5)])
+                x = pf.CellVariable(mesh, np.array(st.value), BC)
+                pf.solvePDE(x, [pf.transientTerm(x, dt, alpha)] + spatial)
+                n += 1
+                if rel(x._value, steady) > 1e-7:
+                    ctx.violation(f"c12:{cname}:fixed-point", f"{cname}: a steady solution is not reproduced by a transient step with dt={dt:g}", dict(L, dt=dt))
+                    break
+            # dt -> infinity gives the steady state, dt -> 0 the old field
+            x = pf.CellVariable(mesh, inner, BC)
+            pf.solvePDE(x, [pf.transientTerm(x, 1e12, 1.0)] + spatial)
+            n += 1
+            if rel(x.value, st.value) > 1e-6:
+                ctx.violation(f"c12:{cname}:dt-inf", f"{cname}: a step with dt=1e12 does not return the steady solution", L)
+            x = pf.CellVariable(mesh, inner, BC)
+            pf.solvePDE(x, [pf.transientTerm(x, 1e-12, 1.0)] + spatial)
+            n += 1
+            if rel(x.value, inner) > 1e-6:
+                ctx.violation(f"c12:{cname}:dt-zero", f"{cname}: a step with dt=1e-12 does not return the old field", L)
+            # explicit step
+            old = pf.CellVariable(mesh, inner, BC)
+            before = np.array(old._value)
+            rhs = pf.divergenceTerm(fmul(pf, mesh, D, pf.gradientTerm(old))) - pf.convectionUpwindTerm(u) @ old._value.ravel() \
+                - pf.linearSourceTerm(beta) @ old._value.ravel() + pf.constantSourceTerm(gam)
+            dt = 1e-3
+            new = pf.solveExplicitPDE(old, dt, rhs)
+            want = before[interior_slices(d)] + dt * rhs.reshape(before.shape)[interior_slices(d)]
+            n += 2
+            if rel(new.value, want) > 1e-10:
+                ctx.violation(f"c12:{cname}:explicit", f"{cname}: solveExplicitPDE is not old + dt*RHS on interior cells", dict(L, dt=dt))
+            if not np.array_equal(before, old._value):
+                ctx.violation(f"c12:{cname}:explicit-input", f"{cname}: solveExplicitPDE modified its input variable", L)
+            # explicit vs implicit: O(dt^2)
+            errs = []
+            Ssum = -spatial[0] + spatial[1] + spatial[2]
+            normS = float(abs(Ssum).max()) + 1.0
+            for dt in (1e-2 / normS, 5e-3 / normS):
+                xi = pf.CellVariable(mesh, inner, BC)
+                pf.solvePDE(xi, [pf.transientTerm(xi, dt, 1.0)] + spatial)
+                xe = pf.solveExplicitPDE(old, dt, rhs)
+                errs.append(float(np.max(np.abs(xi.value - xe.value))))
+            n += 1
+            if errs[0] > 1e-9 and errs[1] > errs[0] / 2.8:
+                ctx.violation(f"c12:{cname}:imp-exp-order", f"{cname}: implicit and explicit steps do not agree to O(dt^2): differences {errs}", L)
+    return n
